@@ -30,6 +30,8 @@ pub const KUSD: &str = "kusd";
 pub const UATOM: &str = "uatom";
 /// a coin nobody knows
 pub const UJUNK: &str = "ujunk";
+/// another listed third coin; sorts *before* the bSei reward coin in bank balance lists
+pub const UIBC: &str = "ibc/atom";
 
 pub const ONE: u128 = 1_000_000_000_000_000_000;
 
@@ -165,7 +167,7 @@ pub fn dispatcher_init(cfg: &Cfg) -> basset_sei_rewards_dispatcher::msg::Instant
         krp_keeper_address: KEEPER.into(),
         krp_keeper_rate: cfg.keeper_rate.dec(),
         swap_contract: SWAP.into(),
-        swap_denoms: vec![USEI.into(), KUSD.into(), UATOM.into()],
+        swap_denoms: vec![USEI.into(), KUSD.into(), UATOM.into(), UIBC.into()],
         oracle_contract: ORACLE.into(),
     }
 }
